@@ -238,6 +238,8 @@ def parse_statement(lexer, toplevel=False):
                 lexer.match("do", "keyword")
                 result = NodeClass(token.value, pos)
                 while not lexer.peekn(1, "end", "keyword"):
+                    if not lexer.peekn(1, "def", "keyword"):
+                        lexer.match("def", "keyword")
                     if lexer.matchIf("def", "keyword"):
                         pos = lexer.getPos()
                         token = lexer.next()
